@@ -104,6 +104,28 @@ Theorem C02_relation_implies_range : forall (K : Fld), FldOk K ->
 Proof. exact relation_implies_promise_bound. Qed.
 Print Assumptions C02_relation_implies_range.
 
+(** At the top of the executed model, for a single proof: when [verify_chunk] accepts a one-member chunk in a
+    verifying mode under a NON-ZERO weight (C08_weights_nonzero) and the back end finds the final product to be the
+    identity, the TEXTBOOK Bulletproofs+ verifier [spec_accepts] accepts the decoded statement / proof pair with the
+    generators cut to bits*m: every guard, the optimised scalar assembly and the single multiscalar product together
+    decide the relation of the paper, no more and no less (the converse is C01_honest_chunk_accepted + C02_verifier_accepts_iff). *)
+From BP Require Import Model.Codec Proofs.TopP Proofs.SoundTopP Model.Prover.
+Theorem C02_accepted_single_means_textbook_accepts : forall (K : Fld), FldOk K -> forall (M : Mod K), ModOk K M ->
+  forall (ofN : N -> F K) (dec : N -> V K M) (H : V K M) (Gb G Hv : list (V K M))
+    (mode : vmode) (mb : member K) (w : F K) (masks : list (option (list (F K)))) (sc : list (F K) * list (F K)),
+  mode <> RecoverOnly -> w <> f0 K -> member_wf K M Gb mb ->
+  verify_chunk K ofN mode [mb] [w] true = (Ok masks, Some sc) ->
+  (mb_N K mb <= length G)%nat -> (mb_N K mb <= length Hv)%nat ->
+  vadd M (msm (fst sc) (interleaveM K M G Hv)) (msm (snd sc) (BatchP.dyn_of K M (pts_of K M dec mb) ++ Gb ++ [H])) = v0 M ->
+  let pr := mb_proof K mb in
+  let Nn := (length (mb_promises K mb) * mb_bits K mb)%nat in
+  spec_accepts K M (mb_bits K mb) H Gb (firstn Nn G) (firstn Nn Hv) (map dec (mb_Venc K mb)) (mb_promises K mb)
+    (mkRproof K M (dec (p_a pr)) (combine (map dec (p_li pr)) (map dec (p_ri pr))) (dec (p_a1 pr)) (dec (p_b pr))
+              (ofN (p_r1 pr)) (ofN (p_s1 pr)) (map ofN (p_d1 pr)))
+    (c_y (mb_ch K mb)) (c_z (mb_ch K mb)) (c_es (mb_ch K mb)) (c_e (mb_ch K mb)).
+Proof. exact accepted_single_means_textbook_accepts. Qed.
+Print Assumptions C02_accepted_single_means_textbook_accepts.
+
 (** The two sides of [C02_verifier_equiv] computed on a concrete DISHONEST proof (rationals; 2 bits x 2
     commitments with a promise, 2 rounds, T = 2, every element arbitrary): they agree and are non-zero —
     the definitions compute, and the equivalence is exercised off the honest-proof manifold. *)
